@@ -21,7 +21,7 @@ def hexs(b):
     return "(unhexN 0x1%s%%N)" % bytes(b).hex()
 
 
-HEADER = "From CJ Require Import Common.Base C02.Model C02.Run.\n"
+HEADER = "From CJ Require Import Common.Base C02.Model C02.ModelTime C02.Run.\n"
 TT = {"min": 1, "obfs4": 2, "prefix": 4}
 TRCODE = {"min": 0, "prefix": 1, "obfs4": 2}
 CLS = {"tryagain": 0, "nottransport": 1, "incorrect_transport": 2, "incorrect_prefix": 3, "found": 4,
@@ -305,6 +305,63 @@ def gen_scenarios(ctx, table):
                   for k in range(len(objs)) for q in range(len(PHANTOMS))]
         mk(objs, ops, fl, probes, name="dualstack")
 
+    # 3e. the same registration is received AGAIN (duplicate through TrackRegIfNotExists - the ingest path - and
+    #     through TrackRegistration / AddRegistration) with time passing before and after it, then the REAL sweep and
+    #     genuine flights.  Time passes by shifting every record's clock relatively ("age"); the lifetime of a
+    #     registration counts from its ORIGINAL registration.
+    DUP_VIAS = ["track", "track_ine", "validate", "track_other", "track_ine_other", "validate_other"]
+    for variant in range(9 if quick else 30):
+        sec = [rhex(rng, 32) for _ in range(3)]
+        tr = ["min", "prefix", "obfs4"][variant % 3]
+        pid = rng.choice(table_ids)
+        ph = rng.randrange(len(PHANTOMS))
+
+        def ob(si, q):
+            return {"secret": sec[si], "transport": tr, "phantom": q, "libver": 4,
+                    "params": {"kind": "prefix" if tr == "prefix" else "generic", "prefix_id": pid if tr == "prefix" else 0}}
+        # 0 subject (never used), 1 another object under the subject's key, 2 control without duplicate,
+        # 3 used registration, 4 another object under its key
+        objs = [ob(0, ph), ob(0, ph), ob(1, ph), ob(2, ph), ob(2, ph)]
+
+        def dup(k, via):
+            return {"op": via.replace("_other", ""), "obj": k + 1 if via.endswith("_other") else k, "dup": True}
+        via = DUP_VIAS[variant % len(DUP_VIAS)] if variant < 6 else rng.choice(DUP_VIAS)
+        via2 = rng.choice(DUP_VIAS)
+        V = lambda k: [{"op": rng.choice(["track", "track_ine"]), "obj": k}, {"op": "validate", "obj": k}] if rng.random() < 0.5 else [{"op": "validate", "obj": k}]
+        A = lambda n: {"op": "age", "obj": 0, "secs": n}
+        SW = {"op": "sweep", "obj": 0}
+        shape = variant if variant < 6 else rng.randrange(7)
+        if shape in (0, 1, 2):     # 9 min, duplicate, 2 min, sweep: unused gone (like the control), used stays
+            ops = V(0) + V(2) + V(3) + [{"op": "use", "obj": 3}, A(540), dup(0, via), dup(3, via2), A(120), SW]
+            if shape == 2:         # duplicates re-sent every few minutes
+                ops = V(0) + V(2) + V(3) + [{"op": "use", "obj": 3}] + [x for _ in range(4) for x in (A(187), dup(0, via), dup(3, via2))] + [SW]
+        elif shape == 3:           # within the lifetime nothing goes; then it runs out
+            ops = V(0) + V(2) + [A(307), dup(0, via), A(187), SW] + ([A(127), dup(0, via2), SW] if rng.random() < 0.5 else [])
+        elif shape == 4:           # used: 6 h from the original registration, duplicates or not
+            ops = V(0) + V(3) + [{"op": "use", "obj": 3}, A(21000), dup(3, via), SW, A(700), dup(3, via2), SW]
+        elif shape == 5:           # first validation long after tracking; re-registration after expiry is a new registration
+            ops = [{"op": "track_ine", "obj": 0}, A(547), {"op": "validate", "obj": 0}, A(67), SW] + \
+                  ([{"op": "validate", "obj": 0}, A(427), dup(0, via), SW] if rng.random() < 0.6 else [])
+        else:                      # random interleaving
+            ops = V(0) + V(2) + V(3)
+            for _ in range(rng.randrange(4, 12)):
+                c = rng.random()
+                if c < 0.35:
+                    ops.append(A(rng.choice([67, 127, 187, 307, 427, 547])))
+                elif c < 0.65:
+                    ops.append(dup(rng.choice([0, 3]), rng.choice(DUP_VIAS)))
+                elif c < 0.8:
+                    ops.append(SW)
+                elif c < 0.9:
+                    ops.append({"op": "use", "obj": rng.choice([0, 3])})
+                else:
+                    ops += V(rng.choice([0, 2, 3]))
+            ops.append(SW)
+        fl = [{"kind": "genuine", "obj": k, "prefix_id": pid, "station": 0, "extra": "" if tr == "obfs4" else "c0de", "role": "own"}
+              for k in (0, 2, 3)]
+        probes = [{"flight": i, "transport": tr, "phantom": ph, "mut": {"kind": "none"}} for i in range(3)]
+        mk(objs, ops, fl, probes, name="duplife", timed=True)
+
     # 4. table-driven reveal function and custom prefix tables (iteration-order dependence, thresholds)
     for _ in range(1 if quick else 6):
         scs.append(gen_synthetic(rng, 120 if quick else 400))
@@ -402,6 +459,8 @@ class Scn:
         return "(R %s %s %s)" % (gN(k + 1), gN(o["transport"]), g_params(o["params"], o["prefix_id"]))
 
     def ops_term(self):
+        if self.sc.get("timed"):
+            return self.timed_ops_term()
         ts = []
         for op, note in zip(self.sc["ops"], self.out["op_notes"]):
             if op["op"] == "sweep":
@@ -422,11 +481,46 @@ class Scn:
                 ts.append("Expire %s %s" % (ph, ident))
         return "[" + "; ".join(ts) + "]"
 
+    def timed_ops_term(self):
+        """history over virtual time (ModelTime.v): flattened by the model itself into the registry operations"""
+        ts = []
+        for op, note in zip(self.sc["ops"], self.out["op_notes"]):
+            if op["op"] == "sweep":
+                ts.append("TSweep")
+                continue
+            if op["op"] == "age":
+                ts.append("TAge %s" % gN(op["secs"]))
+                continue
+            if op["op"] == "advance":
+                ts.append("TAge 25200; TSweep")
+                continue
+            o = self.objs[op["obj"]]
+            if o["err"] or note == "noobj":
+                continue
+            ph, ident = gN(self.phs[o["phantom"]]), hexs(bytes.fromhex(o["id"]))
+            if op["op"] in ("track", "track_ine"):
+                ts.append("TO (Track %s %s %s)" % (ph, ident, self.reg_term(op["obj"])))
+            elif op["op"] == "validate":
+                ts.append("TO (Validate %s %s %s)" % (ph, ident, self.reg_term(op["obj"])))
+            elif op["op"] == "use":
+                ts.append("TUse %s %s" % (ph, ident))
+            elif op["op"] == "expire":
+                ts.append("TO (Expire %s %s)" % (ph, ident))
+        return "(flat [" + "; ".join(ts) + "])"
+
     def live(self):
-        """direct bookkeeping of 'currently validated and unexpired', from the executed history"""
+        """direct bookkeeping of 'currently validated and unexpired', from the executed history; an entry is
+        [object, validated, seconds since its ORIGINAL registration, used]"""
         st = {}
         for op, note in zip(self.sc["ops"], self.out["op_notes"]):
             if op["op"] == "sweep":
+                # the lifetime counts from the original registration: 10 min while never used, 6 h once used
+                for key in [k for k, e in st.items() if e[2] > (21600 if e[3] else 600)]:
+                    del st[key]
+                continue
+            if op["op"] == "age":
+                for e in st.values():
+                    e[2] += op["secs"]
                 continue
             if op["op"] == "advance":
                 st.clear()
@@ -436,9 +530,12 @@ class Scn:
                 continue
             key = (o["phantom"], o["id"])
             if op["op"] in ("track", "track_ine"):
-                st.setdefault(key, [op["obj"], False])
+                st.setdefault(key, [op["obj"], False, 0, False])      # received again: nothing changes
+            elif op["op"] == "use":
+                if key in st:
+                    st[key][3] = True
             elif op["op"] == "validate":
-                e = st.setdefault(key, [op["obj"], False])
+                e = st.setdefault(key, [op["obj"], False, 0, False])
                 if e[0] == op["obj"]:       # register() validates only the caller's own object
                     e[1] = True
                 else:
@@ -605,20 +702,20 @@ def run_wrap(ctx):
     ctx.extra_dirs += ["C08", "C14", "C01"]
     rc, out = ctx.coq_make(["C08/History.vo", "C01/Model.vo"])
     if rc == 0:
-        ctx.coq_props(props_files=["C02/Props.v", "C02/PropsConn.v", "C02/PropsBridge.v"])
+        ctx.coq_props(props_files=["C02/Props.v", "C02/PropsConn.v", "C02/PropsTime.v", "C02/PropsBridge.v"])
         ctx.cov["composition"] = "PropsBridge.v checked against coq/C08 and coq/C01"
     else:
         ctx.extra_dirs[:] = []
-        ctx.coq_props(props_files=["C02/Props.v", "C02/PropsConn.v"])
+        ctx.coq_props(props_files=["C02/Props.v", "C02/PropsConn.v", "C02/PropsTime.v"])
         ctx.cov["composition"] = "NOT checked in this run: coq/C08 or coq/C01 does not build: " + out[-300:]
         ctx.assumptions.append("composition theorems (C02/PropsBridge.v) were not re-checked: a dependency outside C02 does not build")
     for fn in os.listdir(lib.GEN):
         if fn.startswith(("cases_C02_", ".cases_C02_")):
             os.remove(os.path.join(lib.GEN, fn))
-    rc, out = ctx.coq_make(["C02/Run.vo", "C02/RunConn.vo", "C02/Examples.vo", "C02/ExamplesConn.vo", "C02/Refuted.vo"] +
+    rc, out = ctx.coq_make(["C02/Run.vo", "C02/RunConn.vo", "C02/ModelTime.vo", "C02/Examples.vo", "C02/ExamplesConn.vo", "C02/ExamplesTime.vo", "C02/Refuted.vo"] +
                            (["C02/ExamplesBridge.vo"] if ctx.extra_dirs else []))
     if rc != 0:
-        rc2, out2 = ctx.coq_make(["C02/Run.vo", "C02/RunConn.vo"])
+        rc2, out2 = ctx.coq_make(["C02/Run.vo", "C02/RunConn.vo", "C02/ModelTime.vo"])
         if rc2 != 0:
             ctx.broken("model-build", "model does not compile: " + out2[-500:])
             return False
@@ -690,6 +787,27 @@ def run_wrap(ctx):
                 tracked_ids.setdefault(oo["id"], set()).add(oo["phantom"])
         if any(len(phs) > 1 and 0 < sum(1 for q in phs if (q, i) in live and live[(q, i)][1]) < len(phs) for i, phs in tracked_ids.items()):
             ctx.cov["histogram"]["history/twin-expired-other-twin-live"] = ctx.cov["histogram"].get("history/twin-expired-other-twin-live", 0) + 1
+        if sc.get("timed"):
+            # generator self-test: a registration received again between two stretches of time, then the real sweep and
+            # a genuine flight - for a never-used and for a used registration, with the outcome the flight had
+            h = ctx.cov["histogram"]
+            seen_dup, aged = {}, False
+            for op, note in zip(sc["ops"], o["op_notes"]):
+                if op["op"] == "age":
+                    aged = True
+                    for kk in seen_dup:
+                        seen_dup[kk] = 2 if seen_dup[kk] >= 1 else seen_dup[kk]
+                elif op.get("dup") and aged and not o["objects"][op["obj"]]["err"]:
+                    oo = o["objects"][op["obj"]]
+                    seen_dup.setdefault((oo["phantom"], oo["id"]), 1)
+            swept = any(op["op"] == "sweep" for op in sc["ops"])
+            for r in o["results"]:
+                f = sc["flights"][sc["probes"][r["probe"]]["flight"]]
+                oo = o["objects"][f["obj"]]
+                if swept and seen_dup.get((oo["phantom"], oo["id"])) == 2:
+                    u = "used" if any(op["op"] == "use" and o["objects"][op["obj"]]["id"] == oo["id"] for op in sc["ops"]) else "unused"
+                    for kd in ("dup-then-lifetime/" + u, "dup-then-lifetime/%s/%s" % (u, "accepted" if r["class"] == "found" else "refused")):
+                        h[kd] = h.get(kd, 0) + 1
         if S.foreign_validates:
             ctx.cov["histogram"]["history/validate-by-other-object"] = ctx.cov["histogram"].get("history/validate-by-other-object", 0) + 1
         # registry view correspondence
@@ -779,7 +897,9 @@ def run_wrap(ctx):
                        "obfs4/err_other", "probe/cross-phantom", "probe/cross-transport", "probe/min-tag-as-prefix-flight",
                        "probe/wrong-prefix", "probe/foreign-station", "probe/bitflip", "probe/truncated", "probe/untracked-or-expired",
                        "probe/unvalidated", "probe/genuine", "view/nonempty", "view/empty", "object/rejected-at-ingest",
-                       "probe/unvalidated-prescanned", "history/validate-by-other-object", "history/twin-expired-other-twin-live", "history/lifetime-elapsed"])
+                       "probe/unvalidated-prescanned", "history/validate-by-other-object", "history/twin-expired-other-twin-live", "history/lifetime-elapsed",
+                       "dup-then-lifetime/unused", "dup-then-lifetime/used", "dup-then-lifetime/unused/refused",
+                       "dup-then-lifetime/used/accepted", "dup-then-lifetime/used/refused"])
     lap("oracle+emit")
     dname = "defs_C02_%d" % os.getpid()
     rc, o3 = ctx.coq_eval(dname, HEADER + "\n".join(defs) + "\n")
